@@ -373,6 +373,7 @@ func TestVerif_C24_Histories(t *testing.T) {
 						if outcome.proposal != nil {
 							for j := range proposals[:i+1] {
 								if proposals[j] == outcome.proposal {
+									cls = msgs[j].Get("cls").Str()
 									what = fmt.Sprintf("the proposal of message %d %s was returned; the specification filters it out", j+1, describe[j])
 								}
 							}
